@@ -14,7 +14,7 @@ from math import gcd
 from . import dag
 from .common import AnalysisBroken
 
-MAX_CELLS = 4000
+MAX_CELLS = 20000
 
 
 def tdiv(a, b):
@@ -82,9 +82,10 @@ class Cell:
 
 
 class Split(Exception):
-    def __init__(self, at=None, cls=None):
+    def __init__(self, at=None, cls=None, classes=None):
         self.at = at  # cut between at and at+1
-        self.cls = cls  # (M, r)
+        self.cls = cls  # (M, r): members / non-members of one class
+        self.classes = classes  # M: every residue class modulo M (combined with the cell's own class)
 
 
 # abstract integer values -------------------------------------------------------------------------
@@ -192,6 +193,39 @@ class Evaluator:
             else:
                 h = m
         return l
+
+    def exactify(self, f):
+        """A truncated form as an exact affine form: on one residue class of x modulo d/gcd(p,d), and
+        with the sign of the dividend fixed, trunc((p x + q)/d) == (p x + q - rho)/d for a constant
+        rho.  Splits the cell until that holds (a second rounding further down then sees exact
+        integers, which is what makes double truncation decidable)."""
+        if f.kind == "aff":
+            return f
+        if f.is_const() or self.cell.first() == self.cell.last():
+            return K(int(f.at(self.cell.first())))
+        dq = f.d // gcd(abs(f.p), f.d)
+        c = self.cell.cls
+        if dq > 1:
+            if c is not None and not c[2]:
+                return Top("exact form needed inside a non-member class")
+            if c is None or c[0] % dq != 0:
+                if dq > 5000:
+                    return Top("too many residue classes (%d)" % dq)
+                raise Split(classes=dq)
+        num = Form("aff", f.p, f.q, 1)
+        mn, mx = self.ends(num)
+        if mn < 0 < mx:
+            t = self.boundary(num, Fraction(-1, 2), True)
+            if t is None:
+                return Top("sign split failed")
+            raise Split(at=t)
+        x0 = self.cell.first()
+        rho = (f.p * x0 + f.q) % f.d
+        if rho == 0:
+            return Form("aff", f.p, f.q, f.d)
+        if mn >= 0:
+            return Form("aff", f.p, f.q - rho, f.d)
+        return Form("aff", f.p, f.q + f.d - rho, f.d)
 
     def in_range(self, f, lo, hi, node, kind):
         """Ensures f within [lo,hi] on the whole cell, splitting if needed.  Returns f or Bad."""
@@ -336,6 +370,10 @@ class Evaluator:
                     k, f = b.at(0), a
                 else:
                     return Top("non-linear mul")
+                if f.kind != "aff" and not f.is_const() and k.denominator == 1:
+                    f = self.exactify(f)
+                    if not isinstance(f, Form):
+                        return f
                 if f.kind != "aff" or k.denominator != 1:
                     if f.is_const():
                         r = K(int(f.at(0) * k))
@@ -344,6 +382,11 @@ class Evaluator:
                 else:
                     r = Form("aff", f.p * int(k), f.q * int(k), f.d)
             else:
+                if (a.kind != "aff" or b.kind != "aff") and not (a.is_const() and b.is_const()):
+                    a, b = self.exactify(a), self.exactify(b)
+                    for v in (a, b):
+                        if not isinstance(v, Form):
+                            return v
                 if a.kind != "aff" or b.kind != "aff":
                     if a.is_const() and b.is_const():
                         va, vb = a.at(0), b.at(0)
@@ -567,7 +610,20 @@ def analyse(roots, lo, hi, param_index=0, pre_classes=(), ret_views=None, arith=
                         first_bad = v
                 res["!" + k] = first_bad
         except Split as s:
-            if s.cls is not None:
+            if s.classes is not None:
+                M2 = s.classes
+                if cell.cls is None:
+                    new = [Cell(cell.lo, cell.hi, (M2, r, True)) for r in range(M2)]
+                elif cell.cls[2]:
+                    M1, r1, _ = cell.cls
+                    L = M1 * M2 // gcd(M1, M2)
+                    new = [Cell(cell.lo, cell.hi, (L, r1 + M1 * j, True)) for j in range(L // M1)]
+                else:
+                    raise AnalysisBroken("residue split inside non-member class on %r" % cell)
+                if len(new) > 5000:
+                    raise AnalysisBroken("residue split into %d classes on %r" % (len(new), cell))
+                work += new
+            elif s.cls is not None:
                 M, r = s.cls
                 if cell.cls is not None:
                     raise AnalysisBroken("nested congruence split on %r" % cell)
